@@ -1144,6 +1144,8 @@ def run(ctx):
     if tvh is None:
         ctx.violation("harness does not build against /repo", {"unchecked": "cargo build"}, concrete=False)
         return
+    from props import probe_compare as _pc
+    regression_lines(ctx, tvh, ["c07"], compare=_pc.c07)
     rng = ctx.rng
     flags = probe_flags(tvh)
     kind = "d" + flags
